@@ -40,7 +40,8 @@
          no completed exchange is missing
    Where the statement is silent every outcome is accepted:
      - a call that never reached the wire, or that was cut by cancellation, may or
-       may not have a row;
+       may not have a row; the row of a call that never reached the wire has no
+       place in the transmission order (it may stand anywhere);
      - the reply column of a call that raised may be NULL or any reply delivered
        to that call; the exception column of a cancelled call is free;
      - a reply that was not accepted (call raised) need not have a receive time;
@@ -74,37 +75,55 @@ RowClause(r, e) ==
   ELSE IF r.mode # (IF e.ana THEN "emphasized" ELSE "implicit") THEN "log-mode"
   ELSE "ok"
 
-RECURSIVE Can(_, _, _)
-\* rows i.. can be attributed, in order, to the exchanges j..
-Can(x, i, j) ==
-  IF j > Len(x.exch) THEN i > Len(x.rows)
+OffWire(x) == {k \in 1..Len(x.exch) : x.exch[k].nw = 0}
+
+\* row r can be the row of the off-wire call k (a call that never reached the wire has
+\* no place in the transmission order: its row, if any, may stand anywhere)
+FreeRow(x, r, k) == MayLog(x.exch[k]) /\ RowClause(r, x.exch[k]) = "ok"
+
+RECURSIVE Can(_, _, _, _)
+\* rows i.. can be attributed, in order, to the on-wire exchanges j.. and, freely, to the
+\* off-wire calls not in `used`
+Can(x, i, j, used) ==
+  IF j > Len(x.exch)
+  THEN \/ i > Len(x.rows)
+       \/ /\ i <= Len(x.rows)
+          /\ \E k \in OffWire(x) \ used : FreeRow(x, x.rows[i], k) /\ Can(x, i + 1, j, used \cup {k})
   ELSE LET e == x.exch[j] IN
-       \/ ~MustLog(x, e) /\ Can(x, i, j + 1)
-       \/ /\ MayLog(e) /\ i <= Len(x.rows)
+       \/ (e.nw = 0 \/ ~MustLog(x, e)) /\ Can(x, i, j + 1, used)
+       \/ /\ e.nw > 0 /\ MayLog(e) /\ i <= Len(x.rows)
           /\ RowClause(x.rows[i], e) = "ok"
-          /\ Can(x, i + 1, j + 1)
+          /\ Can(x, i + 1, j + 1, used)
+       \/ /\ i <= Len(x.rows)
+          /\ \E k \in OffWire(x) \ used : FreeRow(x, x.rows[i], k) /\ Can(x, i + 1, j, used \cup {k})
 
 Missing(x, j) == IF x.aborted THEN <<"B4", "completed-exchange-missing-after-abort", j>>
                  ELSE <<"B1", "exchange-without-row", j>>
 
-RECURSIVE Diag(_, _, _)
+RECURSIVE Diag(_, _, _, _)
 \* total diagnosis along a greedy alignment: <<clause, what, index of the exchange (or row)>>
-Diag(x, i, j) ==
+Diag(x, i, j, used) ==
+  LET has == i <= Len(x.rows)
+      r == x.rows[i]
+      free == {k \in OffWire(x) \ used : has /\ FreeRow(x, r, k)}
+      kf == CHOOSE k \in free : \A k2 \in free : k <= k2 IN
   IF j > Len(x.exch)
-  THEN IF i > Len(x.rows) THEN <<"ok", "", 0>> ELSE <<"B1", "row-without-exchange", i>>
+  THEN IF ~has THEN <<"ok", "", 0>>
+       ELSE IF free # {} THEN Diag(x, i + 1, j, used \cup {kf})
+       ELSE <<"B1", "row-without-exchange", i>>
   ELSE
   LET e == x.exch[j]
-      has == i <= Len(x.rows)
-      r == x.rows[i]
       c == IF has THEN RowClause(r, e) ELSE "none" IN
-  IF has /\ MayLog(e) /\ c = "ok" /\ Can(x, i + 1, j + 1) THEN Diag(x, i + 1, j + 1)
-  ELSE IF ~MustLog(x, e) /\ Can(x, i, j + 1) THEN Diag(x, i, j + 1)
+  IF e.nw = 0 THEN Diag(x, i, j + 1, used)
+  ELSE IF has /\ MayLog(e) /\ c = "ok" /\ Can(x, i + 1, j + 1, used) THEN Diag(x, i + 1, j + 1, used)
+  ELSE IF ~MustLog(x, e) /\ Can(x, i, j + 1, used) THEN Diag(x, i, j + 1, used)
+  ELSE IF free # {} /\ Can(x, i + 1, j, used \cup {kf}) THEN Diag(x, i + 1, j, used \cup {kf})
   ELSE IF e.impl = "off" THEN
-         IF has /\ r.okDecode /\ r.req = e.req /\ Can(x, i + 1, j + 1)
+         IF has /\ r.okDecode /\ r.req = e.req /\ Can(x, i + 1, j + 1, used)
          THEN <<"B3", "recorded-while-implicit-off", j>>
-         ELSE Diag(x, i, j + 1)
-  ELSE IF ~has THEN (IF MustLog(x, e) THEN Missing(x, j) ELSE Diag(x, i, j + 1))
-  ELSE IF c = "ok" THEN Diag(x, i + 1, j + 1)
+         ELSE Diag(x, i, j + 1, used)
+  ELSE IF ~has THEN (IF MustLog(x, e) THEN Missing(x, j) ELSE Diag(x, i, j + 1, used))
+  ELSE IF c = "ok" THEN Diag(x, i + 1, j + 1, used)
   ELSE IF r.okDecode /\ r.req = e.req THEN <<"B2", c, j>>
   ELSE IF i > 1 /\ r.req = x.rows[i-1].req /\ r.resp = x.rows[i-1].resp /\ r.send = x.rows[i-1].send
        THEN <<"B1", "duplicate-row", j>>
@@ -113,12 +132,12 @@ Diag(x, i, j) ==
        THEN <<"B1", "transmission-order", j>>
   ELSE IF ~r.okDecode THEN <<"B2", "request-bytes", j>>
   ELSE IF MustLog(x, e) THEN Missing(x, j)
-  ELSE Diag(x, i, j + 1)
+  ELSE Diag(x, i, j + 1, used)
 
 \* Verdict of one observed run: <<"ok","",0>> or the first clause broken.
 Verdict(x) ==
   IF x.stray > 0 THEN <<"B1", "row-of-no-run", 0>>
-  ELSE IF Can(x, 1, 1) THEN <<"ok", "", 0>>
-  ELSE LET d == Diag(x, 1, 1) IN
+  ELSE IF Can(x, 1, 1, {}) THEN <<"ok", "", 0>>
+  ELSE LET d == Diag(x, 1, 1, {}) IN
        IF d[1] = "ok" THEN <<"B1", "rows-not-attributable", 0>> ELSE d
 =============================================================================
